@@ -3,6 +3,7 @@ package mon
 import (
 	"bytes"
 	"fmt"
+	"os"
 	"path/filepath"
 	"sort"
 	"strings"
@@ -398,6 +399,10 @@ func readLogSeq(walDir string) ([]seqEnt, error) {
 }
 
 func runC08(c *core.Ctx, res *core.Result) {
+	if c.Idx%24 == 23 {
+		c08Retired(c, res)
+		return
+	}
 	switch c.Idx % 6 {
 	case 0, 1, 2:
 		c08Sequential(c, res)
@@ -699,4 +704,45 @@ func shorten(s string) string {
 		return s[:30] + "..."
 	}
 	return s
+}
+
+// c08Retired: the whole log is retired (everything flushed, log files removed - what retention is
+// entitled to do) before a restart. The counter is recovered from log entries only.
+func c08Retired(c *core.Ctx, res *core.Result) {
+	r := c.Rand
+	cfg := kv.Cfg{MemTableSize: []int64{300, 4096, 1 << 20}[r.Intn(3)], MaxMemTables: r.Range(1, 4), SyncMode: r.Intn(3), CompactSecs: 3600}
+	dir := filepath.Join(c.Dir, "db")
+	eng, err := kv.Open(dir, cfg)
+	if err != nil {
+		res.Violate("open_error", err.Error(), nil)
+		return
+	}
+	n := r.Range(5, 40)
+	for i := 0; i < n; i++ {
+		eng.Put([]byte(fmt.Sprintf("k%02d", r.Intn(8))), []byte(fmt.Sprintf("v%d", i)))
+	}
+	before, _ := eng.GetStats()["storage_last_sequence"].(uint64)
+	eng.FlushImMemTables()
+	eng.FlushImMemTables()
+	eng.Close()
+	files, _ := filepath.Glob(filepath.Join(dir, "wal", "*.wal"))
+	for _, f := range files {
+		os.Remove(f)
+	}
+	eng, err = kv.Open(dir, cfg)
+	if err != nil {
+		res.Violate("open_error", err.Error(), nil)
+		return
+	}
+	defer eng.Close()
+	after, _ := eng.GetStats()["storage_last_sequence"].(uint64)
+	eng.Put([]byte("after"), []byte("restart"))
+	next := eng.GetWAL().GetNextSequence() - 1
+	feat := map[string]string{"mode": "retired", "log_fully_retired_before_restart": "true"}
+	res.Count("full_retirement_restarts", 1)
+	if after < before || next <= before {
+		res.Violate("sequence_regression", fmt.Sprintf("%d writes (last sequence %d), everything flushed, all log files retired, restart: statistics report last sequence %d and the next write is stamped %d", n, before, after, next), feat)
+	}
+	res.Sig = core.Sig("retired", cfg.String(), n)
+	res.Nontrivial = true
 }
